@@ -75,6 +75,9 @@ def own_serials(desc, name, acc=None):
     if isinstance(desc, dict):
         if desc.get("k") == "obj" and desc.get("args", {}).get("v") and desc["args"]["v"][0].get("v") == name and desc.get("ctor", "").endswith(".NewA"):
             acc.append(desc["serial"])
+        # a decorated service: the decorator's result (tag, service id, …) is the instance
+        if desc.get("k") == "obj" and desc.get("ctor", "").endswith(".Dec1") and len(desc.get("args", {}).get("v", [])) > 1 and desc["args"]["v"][1].get("v") == name:
+            acc.append(desc["serial"])
         for v in desc.values():
             own_serials(v, name, acc)
     elif isinstance(desc, list):
@@ -92,11 +95,22 @@ def history_cfg(rng):
         if i > 0 and rng.random() < 0.3:
             args.append("@" + rng.choice(names[:i]))      # a second injection of the same dependency
         s = {"constructor": "fx.NewA", "arguments": args}
+        if rng.random() < 0.6:
+            s["getter"] = "Get" + n.upper()
+            if rng.random() < 0.7:
+                s["must_getter"] = True
         sc = rng.choice(SCOPES)
         if sc:
             s["scope"] = sc
         svcs[n] = s
     cfg = {"meta": {"pkg": "gen", "imports": {"fx": gen.FX}}, "services": svcs}
+    if rng.random() < 0.4:
+        # a service with no arguments, calls or fields of its own whose only dependency comes through a decorator of its tag
+        svcs["rq"] = {"constructor": "fx.NewA", "arguments": ["rq"], "scope": rng.choice(["contextual", "contextual", None])}
+        if svcs["rq"]["scope"] is None:
+            del svcs["rq"]["scope"]
+        svcs["h"] = {"constructor": "fx.NewC", "tags": ["dt"], "getter": "GetH"}
+        cfg["decorators"] = [{"tag": "dt", "decorator": "fx.Dec1", "arguments": ["@rq"]}]
     gen._repair_scopes(cfg)
     return cfg
 
@@ -109,10 +123,37 @@ def resolved(cfg, n):
     return "contextual" if any(cfg["services"][d].get("scope") == "contextual" for d in clo[n]) else "shared"
 
 
+def getter_methods(cfg):
+    """generated getter method -> (service, uses a context)"""
+    out = {}
+    dm = cfg.get("meta", {}).get("default_must_getter", False)
+    for n, s in cfg["services"].items():
+        g = s.get("getter")
+        if not g or s.get("todo"):
+            continue
+        out[g] = (n, False)
+        out[g + "InContext"] = (n, True)
+        if s.get("must_getter", dm):
+            out["Must" + g] = (n, False)
+            out["Must" + g + "InContext"] = (n, True)
+    return out
+
+
+def norm_op(cfg, op):
+    """a getter call is a Get / GetInContext of its service"""
+    if op[0] == "call":
+        n, inctx = getter_methods(cfg).get(op[1], (None, False))
+        if n is None:
+            return op
+        return ["getctx", op[2], n] if inctx else ["get", n]
+    return op
+
+
 def judge_history(cfg, ops, results):
     """instance identity, judged directly from the probe's descriptions"""
     shared = {}
     perctx = {}
+    ops = [norm_op(cfg, o) for o in ops]
     for idx, (op, r) in enumerate(zip(ops, results)):
         if op[0] not in ("get", "getctx") or "ok" not in r:
             continue
@@ -191,9 +232,14 @@ def run(ctx, nhist=None):
         cfg = history_cfg(ctx.rng)
         names = list(cfg["services"])
         ops = [["newctx", "c1"], ["newctx", "c2"]]
+        gm = getter_methods(cfg)
         for _ in range(ctx.rng.randint(3, 8)):
             n = ctx.rng.choice(names)
             ops.append(ctx.rng.choice([["get", n], ["getctx", "c1", n], ["getctx", "c2", n], ["getctx", "c1", n]]))
+            # the generated getters are Gets too: G / MustG without a context, GInContext / MustGInContext with theirs
+            if gm and ctx.rng.random() < 0.6:
+                m = ctx.rng.choice(sorted(gm))
+                ops.append(["call", m, ctx.rng.choice(["c1", "c2"])] if gm[m][1] else ["call", m])
         items.append((cfg, ops))
     out, err = behave.run_batch(ctx, items, tag="c05")
     if err:
